@@ -338,6 +338,15 @@ class Struct(metaclass=MetaStruct):
             self._buffer.update_from_xbuffer(
                 self._offset, value._buffer, value._offset, value._size
             )
+            # `value` may split the same size differently among its dynamic
+            # fields: refresh the offsets this handle cached
+            if self._d_fields:
+                self._offsets = {
+                    field.index: Int64._from_buffer(
+                        self._buffer, self._offset + field.offset
+                    )
+                    for field in self._d_fields
+                }
         else:
             # all or nothing: a field that cannot be assigned must not leave
             # the fields before it modified
